@@ -225,12 +225,12 @@ Definition refutation_witnesses : list (mutator * nat * N) :=
    (m_prop_priority_pinned, 0%nat, 6%N);          (* "!x" is stored, then refused *)
    (m_ml_mediaText_pinned, 0%nat, 3%N);           (* no content: wellformed already cleared *)
    (m_sheet_insertRule_ns_pinned, 0%nat, 9%N);    (* clean-up of the older @namespace rule refused *)
-   (m_sheet_insertRule_import, 0%nat, 10%N);      (* imported sheet refused after the insertion *)
-   (m_sheet_insertRule_list, 2%nat, 105%N);       (* second rule of the list refused (hierarchy) *)
-   (m_media_insertRule_list, 2%nat, 105%N);
-   (m_page_insertRule_list, 2%nat, 105%N);
-   (m_import_cssText_fetch, 0%nat, 10%N);
-   (m_import_href_fetch, 0%nat, 10%N)].
+   (m_sheet_insertRule_import_pinned, 0%nat, 10%N);      (* imported sheet refused after the insertion *)
+   (m_sheet_insertRule_list_pinned, 2%nat, 105%N);       (* second rule of the list refused (hierarchy) *)
+   (m_media_insertRule_list_pinned, 2%nat, 105%N);
+   (m_page_insertRule_list_pinned, 2%nat, 105%N);
+   (m_import_cssText_fetch_pinned, 0%nat, 10%N);
+   (m_import_href_fetch_pinned, 0%nat, 10%N)].
 
 Theorem refutation_witnesses_ok :
   forallb (fun w => refutes (fst (fst w)) (snd (fst w)) (snd w)) refutation_witnesses = true.
@@ -312,21 +312,21 @@ Lemma ml_mediaText_pinned_refuted : refuted_at m_ml_mediaText_pinned 0 3.
 Proof. apply refuted_witness. in_list. Qed.
 Lemma sheet_insertRule_ns_pinned_refuted : refuted_at m_sheet_insertRule_ns_pinned 0 9.
 Proof. apply refuted_witness. in_list. Qed.
-Lemma sheet_insertRule_import_refuted : refuted_at m_sheet_insertRule_import 0 10.
+Lemma sheet_insertRule_import_pinned_refuted : refuted_at m_sheet_insertRule_import_pinned 0 10.
 Proof. apply refuted_witness. in_list. Qed.
-Lemma sheet_insertRule_list_refuted : refuted_at m_sheet_insertRule_list 2 105.
+Lemma sheet_insertRule_list_pinned_refuted : refuted_at m_sheet_insertRule_list_pinned 2 105.
 Proof. apply refuted_witness. in_list. Qed.
-Lemma media_insertRule_list_refuted : refuted_at m_media_insertRule_list 2 105.
+Lemma media_insertRule_list_pinned_refuted : refuted_at m_media_insertRule_list_pinned 2 105.
 Proof. apply refuted_witness. in_list. Qed.
-Lemma page_insertRule_list_refuted : refuted_at m_page_insertRule_list 2 105.
+Lemma page_insertRule_list_pinned_refuted : refuted_at m_page_insertRule_list_pinned 2 105.
 Proof. apply refuted_witness. in_list. Qed.
-Lemma import_cssText_fetch_refuted : refuted_at m_import_cssText_fetch 0 10.
+Lemma import_cssText_fetch_pinned_refuted : refuted_at m_import_cssText_fetch_pinned 0 10.
 Proof. apply refuted_witness. in_list. Qed.
-Lemma import_href_fetch_refuted : refuted_at m_import_href_fetch 0 10.
+Lemma import_href_fetch_pinned_refuted : refuted_at m_import_href_fetch_pinned 0 10.
 Proof. apply refuted_witness. in_list. Qed.
 
-(* a list of rules is inserted atomically as long as it has at most one element *)
-Definition list_mutators := [m_sheet_insertRule_list; m_media_insertRule_list; m_page_insertRule_list].
+(* pinned: a list of rules is inserted atomically as long as it has at most one element *)
+Definition list_mutators := [m_sheet_insertRule_list_pinned; m_media_insertRule_list_pinned; m_page_insertRule_list_pinned].
 Lemma rulelist_short_ok :
   forallb (fun m => commits_after_checks m 0 && commits_after_checks m 1) list_mutators = true.
 Proof. vm_compute. reflexivity. Qed.
